@@ -1,6 +1,8 @@
 package gosym
 
 import (
+	"crypto/hmac"
+	"crypto/sha256"
 	"fmt"
 	"go/types"
 	"math"
@@ -84,6 +86,8 @@ func modelHasMethod(kind, m string) bool {
 		return m == "Error" || m == "Unwrap"
 	case "hash":
 		return m == "Write" || m == "Sum" || m == "Reset" || m == "Size" || m == "BlockSize"
+	case "hkdf":
+		return m == "Read"
 	case "aead":
 		return m == "Seal" || m == "Open" || m == "NonceSize" || m == "Overhead"
 	case "block":
@@ -239,6 +243,19 @@ func (in *Interp) modelMethod(mo *ModelObj, name string, args []Value) Value {
 			}
 			o := in.newObj(symMem(arr), nil, "digest")
 			return SliceV{Base: Ptr{Obj: o}, Off: tb.Int(0), Len: tb.Int(32), Cap: tb.Int(32), Byte: true, Max: 32}
+		}
+	case "hkdf":
+		if name == "Read" {
+			st := mo.Data.(*hkdfState)
+			p := args[0].(SliceV)
+			if !p.Len.IsConst() {
+				panic("hkdf Read into a buffer of symbolic length")
+			}
+			n := int(p.Len.V)
+			out := st.next(n)
+			src := in.newObj(constMem(out), nil, "hkdf-out")
+			in.copyOp(p, SliceV{Base: Ptr{Obj: src}, Off: tb.Int(0), Len: tb.Int(int64(n)), Cap: tb.Int(int64(n)), Byte: true, Max: n})
+			return TupleV{tb.Int(int64(n)), IfaceV{}}
 		}
 	case "block":
 		switch name {
@@ -560,6 +577,25 @@ func registerNatives(in *Interp) {
 		h.id = len(in.ghost.hashes)
 		return in.modelIface("hash", h)
 	}
+	// HKDF (golang.org/x/crypto/hkdf) over concrete secret, salt and info: the real
+	// HKDF-SHA256 output, computed here with the standard library (the hash argument is
+	// taken to be SHA-256, the only one cedar passes). Symbolic inputs are inconclusive.
+	n["golang.org/x/crypto/hkdf.New"] = func(in *Interp, fn *ssa.Function, args []Value) Value {
+		get := func(v Value, what string) []byte {
+			sv := v.(SliceV)
+			if sv.Nil || (sv.Len.IsConst() && sv.Len.V == 0) {
+				return nil
+			}
+			str, ok := in.concreteStr(in.bytesToStr(sv))
+			if !ok {
+				panic("hkdf.New: symbolic " + what + " is not modelled")
+			}
+			return []byte(str)
+		}
+		st := newHKDF(get(args[1], "secret"), get(args[2], "salt"), get(args[3], "info"))
+		in.noteAssumption("hkdf.New with concrete inputs yields the real HKDF-SHA256 stream")
+		return in.modelIface("hkdf", st)
+	}
 	n["crypto/aes.NewCipher"] = func(in *Interp, fn *ssa.Function, args []Value) Value {
 		k := args[0].(SliceV)
 		if !k.Len.IsConst() {
@@ -627,7 +663,15 @@ func registerNatives(in *Interp) {
 		in.bufferAppend(args[0].(Ptr), m, in.tb.Int(0), in.tb.Int(1), 1)
 		return IfaceV{}
 	}
-	n["(*bytes.Buffer).Grow"] = nop
+	// Grow(n) reserves n bytes: it is an allocation of that size (so a reservation
+	// sized from a peer-announced length meets the allocation limit like a make
+	// does) and panics for a negative or absurd count as the library does
+	n["(*bytes.Buffer).Grow"] = func(in *Interp, fn *ssa.Function, args []Value) Value {
+		cnt := args[1].(*Term)
+		in.mustHold(in.tb.And(in.tb.SLe(in.tb.Int(0), cnt), in.tb.SLe(cnt, in.tb.Int(1<<40))), "panic", "bytes.Buffer.Grow: negative or too large count")
+		in.noteAlloc(cnt)
+		return nil
+	}
 	n["encoding/binary.Write"] = func(in *Interp, fn *ssa.Function, args []Value) Value {
 		w := args[0].(IfaceV)
 		order := args[1].(IfaceV)
@@ -743,4 +787,34 @@ func (in *Interp) indexByte(m *ByteMem, off, ln *Term, max int, c *Term) Value {
 
 func nativeSprintf(in *Interp, fn *ssa.Function, args []Value) Value {
 	return in.sprintf(args)
+}
+
+// hkdfState is RFC 5869 HKDF-SHA256 (extract, then expand on demand).
+type hkdfState struct {
+	prk, info, prev, buf []byte
+	ctr                  byte
+}
+
+func newHKDF(secret, salt, info []byte) *hkdfState {
+	if salt == nil {
+		salt = make([]byte, sha256.Size)
+	}
+	m := hmac.New(sha256.New, salt)
+	m.Write(secret)
+	return &hkdfState{prk: m.Sum(nil), info: info}
+}
+
+func (h *hkdfState) next(n int) []byte {
+	for len(h.buf) < n {
+		h.ctr++
+		m := hmac.New(sha256.New, h.prk)
+		m.Write(h.prev)
+		m.Write(h.info)
+		m.Write([]byte{h.ctr})
+		h.prev = m.Sum(nil)
+		h.buf = append(h.buf, h.prev...)
+	}
+	out := h.buf[:n]
+	h.buf = h.buf[n:]
+	return out
 }
